@@ -208,10 +208,6 @@ def make_case(rng, point, scene, kindname, variant):
     else:
         o["names"] = ["p", "q", "r", "s"][:len(rbs)] if rng.random() < 0.8 or nm is None else list(nm[:len(rbs)])
     out = copy.deepcopy(scene["out"]) if has_out else None
-    if out is not None and inplace and has_default:
-        # inplace + out= copies out's non-tensor data into self's entries while self.empty(recurse=True) stand-ins built
-        # earlier still share those entry objects (aliasing the functional model does not have): same payloads there
-        same_payloads(S, out)
     if dev_mode == "absent":
         o["dev"] = "absent"
     elif dev_mode == "same":
@@ -474,7 +470,7 @@ def model_line(case, ran=None):
     if kindname == "lazy" and case["front"] == "apply_":
         return None
     if kindname == "lazy":
-        has_out_fwd = case["out"] is not None and case["front"] != "named_apply"
+        has_out_fwd = case["out"] is not None
         if case["threads"] or (o["bs"] is not None and not has_out_fwd) or o["names"] != "absent":
             return None                    # (names= on a lazy stack goes through the lazy names setter: not modelled)
         om = dict(o, bs=None)              # batch_size= is not forwarded to the members
@@ -490,7 +486,7 @@ def model_line(case, ran=None):
             return None
         o = dict(o, checked=False)
     mode = "mt" if case["threads"] else "st"
-    fwd_out = case["out"] if case["front"] != "named_apply" else None      # named_apply accepts out= and drops it
+    fwd_out = case["out"]
     k = sum(1 for _ in I.walk(case["self"]))
     pi = list(ran) if ran else list(range(k))        # ids beyond the number of tasks are ignored by the model
     return sx([Sym("apply"), Sym(mode), opts_sx(o), tree_sx(case["self"]), [tree_sx(t) for t in case["others"]],
@@ -735,8 +731,6 @@ def check_lazy_apply_(case):
     cnt["lazy.apply_"] = 1
     cnt["outcome:" + (real["outcome"] if real["outcome"] == "ok" else real["exc"])] = 1
     sig = {"call": "lazy.apply_", "container": "lazy", "propagate": o["propagate"]}
-    if REF.skeleton_hit(dict(case, self=case["members"][0], others=[ms[0] for ms in case["others_members"]])):
-        sig["skeleton_hit"] = True
     gray = REF.gray_reasons(dict(case, self=case["members"][0], out=None))
     per = []
     for i, m in enumerate(case["members"]):
@@ -919,8 +913,6 @@ def check_case(case, mres):
             count("mt-vs-st:gray")
         elif kindname == "sub" and o["checked"]:
             count("mt-vs-st:gray _SubTensorDict with checked=True")     # the single-threaded form of a view always validates
-        elif inplace and has_out and not o["leaf_nont"] and any(e[0] == "T" for _, e in I.walk(case["self"])):
-            count("mt-vs-st:gray inplace + out= + non-tensor entries")    # the single-threaded form copies out's non-tensor data into self
         else:
             tya, tyb = (mt.get("ret_type"), st.get("ret_type")) if kindname != "params" else (None, None)
             a = (mt["outcome"], meta_blind(strip_ident(mt.get("ret"))) if mt.get("ret") != "cyclic" else "cyclic", tya)
@@ -1022,17 +1014,9 @@ def summarize(real):
 
 
 def pattern_flags(case):
-    """decidable patterns of the recorded defects, computed from the case alone"""
-    o = case["opts"]
-    S = case["self"]
-    f = {}
-    if case["front"] == "named_apply" and case["out"] is not None and not o["inplace"]:
-        f["named_apply_out"] = True
-    if REF.skeleton_hit(case):
-        f["skeleton_hit"] = True
-    if o["inplace"] and S[2][3] and not o["leaf_nont"] and any(e[0] == "T" and (not o["con"] or len(p) > 1) for p, e in I.walk(S) if p):
-        f["inplace_locked_nontensor"] = True
-    return f
+    """decidable patterns of the recorded defects, computed from the case alone (none at present: C20-a, C20-b, C20-c, C20-e
+    and C20-f are repaired in /repo)"""
+    return {}
 
 
 def mt_patterns(case):
@@ -1045,12 +1029,13 @@ def mt_patterns(case):
     return f
 
 
-def blind_nont(t):
+def blind_nont(t, meta=False, data=True):
+    """non-tensor entries with their data (and / or their metadata) hidden"""
     if t is None or isinstance(t, str) or t[0] == "L":
         return t
     if t[0] == "T":
-        return ["T", "-", "-", t[3]]
-    return ["N", t[1], t[2], [[k, blind_nont(c)] for k, c in t[3]]]
+        return ["T", "-", "-" if data else t[2], "-" if meta else t[3]]
+    return ["N", t[1], t[2], [[k, blind_nont(c, meta, data)] for k, c in t[3]]]
 
 
 def blind_full(t):
@@ -1080,6 +1065,8 @@ def mt_diff_kind(mt, st, case=None):
             return "extra-empty-nodes"          # nothing was written: self / out is returned where the other form returns None
     if strip_ident(blind_nont(mr)) == strip_ident(blind_nont(sr)):
         return "non-tensor-data"
+    if strip_ident(blind_nont(mr, True, False)) == strip_ident(blind_nont(sr, True, False)):
+        return "non-tensor-metadata"
     if strip_ident(erase_nested_names(mr)) == strip_ident(erase_nested_names(sr)):
         return "names-only"
 
@@ -1216,9 +1203,8 @@ def main(R):
                      "num_threads=2 runs through a deterministic executor (tasks complete in a generated permutation); num_threads=4 uses the real ThreadPoolExecutor",
                      "batch_size= is passed as torch.Size and device= as torch.device (a list / str never compares equal to out.batch_size / out.device)",
                      "gray combinations (listed in the input distribution as gray:*) are compared with the model only; the oracle demands nothing there but the frame",
-                     "with inplace + out= + default= the non-tensor payloads of out equal those of self (the code aliases entry objects there, the functional model does not)",
                      "lazy stacks through the stacked view (batch_size override), lazy stacks with a thread pool and aliased operands are checked by the oracle only",
-                     "the model of the thread-pool form follows /repo's working tree (repairs of S15 / S16 / C12-b / C12-c / C20-d in _multithread_apply_flat / _multithread_rebuild)"]
+                     "the model follows /repo with the repairs of S15 / S16 / C12-b / C12-c / C20-d (thread-pool form) and of C20-a / b / c / e / f (fixes/C20/*.diff) applied"]
     R.trusted = ["harness/c20_ref.py: the reference (nested dicts) is my reading of the documented contract of apply"]
     t00 = time.time()
     R.step_prove()
@@ -1232,6 +1218,12 @@ def main(R):
     per_point = 1 if R.quick else 8
     R.extra["lattice_points"] = len(pts)
     nproc = min(15, os.cpu_count() or 2)
+    try:
+        avail_gb = int([l for l in open("/proc/meminfo") if l.startswith("MemAvailable")][0].split()[1]) // (1 << 20)
+        nproc = max(3, min(nproc, avail_gb))            # a worker needs about 0.5 GB; leave room on a loaded machine
+    except Exception:  # noqa: BLE001
+        pass
+    R.extra["workers"] = nproc
     ctx = mp.get_context("fork")
     tim = {"generate_s": time.time() - t00, "model_s": 0.0, "impl_s": 0.0, "collect_s": 0.0}
     with ctx.Pool(nproc) as pool:
